@@ -82,7 +82,23 @@ pub fn build(seed: u64, phase: Phase) -> Scn {
         }
     }
     for i in (0..n).rev() {
-        let rec = g.recipe(&mut r, i, &BTreeSet::new(), true);
+        let mut rec = g.recipe(&mut r, i, &BTreeSet::new(), true);
+        // some nested compound loads are guarded by catch_unwind and followed by
+        // a further read: a panic below must not disturb what the outer load
+        // records afterwards
+        if r.chance(1, 2) {
+            let mut out = vec![];
+            for op in rec {
+                match op {
+                    Op::Load { ty: Ty::Node(k), id } | Op::Try { ty: Ty::Node(k), id } => {
+                        out.push(Op::Catch(vec![Op::Load { ty: Ty::Node(k), id }]));
+                        out.push(Op::File { id: g.leaves[0].clone(), ext: "a".into() });
+                    }
+                    other => out.push(other),
+                }
+            }
+            rec = out;
+        }
         files.push((g.nodes[i].clone(), "n0".to_string(), render_recipe(&rec)));
     }
     let mut universe: Vec<(usize, Key)> = vec![];
@@ -246,6 +262,24 @@ pub fn exec(rep: &mut Report, scn: &Scn, fault: Option<&Fault>, tag: Value) -> (
         }
     }
     w.full_compare(rep, &j, &scn.universe);
+    // what was recorded during the (faulted, then repaired) loads is right: one
+    // single-entry edit per leaf file, each its own pass, judged by attribution
+    let leaves: Vec<(String, String)> = scn
+        .files
+        .iter()
+        .filter(|(id, ext, _)| ext == "a" && id.starts_with("l."))
+        .map(|(id, ext, _)| (id.clone(), ext.clone()))
+        .collect();
+    for (k, (id, ext)) in leaves.into_iter().enumerate() {
+        if w.aborted.is_some() {
+            break;
+        }
+        w.apply(&Step::Write { c: 0, id: id.clone(), ext: ext.clone(), content: format!("{id}#sweep{k}") }, rep, &j);
+        w.apply(&Step::Notify { c: 0, entries: vec![(false, id, ext)], batched: false }, rep, &j);
+        IN_HOT_RELOAD.fetch_add(1, SeqCst);
+        w.apply(&Step::Pass { c: 0 }, rep, &j);
+        IN_HOT_RELOAD.fetch_sub(1, SeqCst);
+    }
     // after the repair every root is loaded / up to date: a fresh load equals the cached value
     for s in &scn.faulted {
         if let Step::Load { ty, id, .. } = s {
@@ -372,7 +406,8 @@ pub fn run(args: &Args) -> Report {
             return child(args, rep, seed.parse().expect("child seed"));
         }
     }
-    let nscn = if miri { 1 } else { args.n(6, 40) };
+    // under Miri every process takes one scenario (its shard index) and every 15th fault point
+    let nscn = if miri { args.nshards } else { args.n(60, 4000) };
     let kinds: &[ErrorKind] = if miri { &KINDS[..2] } else { &KINDS };
     let mut fired_total = 0u64;
     let mut points_total = 0u64;
@@ -391,7 +426,7 @@ pub fn run(args: &Args) -> Report {
         rep.seen("phases", &format!("{phase:?}"));
         let mut child_needed = false;
         for (i, f) in faults.iter().enumerate() {
-            if miri && i % 5 != 0 {
+            if miri && i % 15 != (args.shard * 4) % 15 {
                 continue;
             }
             if f.is_reload_panic(phase) {
